@@ -70,7 +70,8 @@ def file_sites(ctx):
                         ok, why = False, "listed path %s is not join(<write directory>, <write name>)" % ast.unparse(arg)[:80]
                     elif l.func.value.attr != LISTS[fn]:
                         ok, why = False, "%s file registered in %s" % (fn, l.func.value.attr)
-                ctx.item(ident, ok, why, sample={"function": func.name, "writes": len(writes), "listed": len(lists)})
+                ctx.item(ident, ok, why, sample={"function": func.name, "writes": len(writes), "listed": len(lists)},
+                         confirm=lambda: ctx.monitor("m_wrapsel", "search", 80, ctx.seed), shape=True)
     # Python / Lua emitters never touch cfiles / ffiles
     for fn in ("wrapp.py", "wrapl.py"):
         src = open(os.path.join(REPO, "shroud", fn)).read()
@@ -95,17 +96,19 @@ def gating(ctx):
             seen.append((n.lineno, lang))
             ctx.item("C15/U2/main_with_args:%s.wrap_library-gated" % recv.split("(")[0], ok,
                      "wrap_library of %s is not under `if %s`: guards %r" % (recv[:40], lang, g),
-                     sample={"call": recv[:60], "guards": [x[0] for x in g]})
+                     sample={"call": recv[:60], "guards": [x[0] for x in g]},
+                     confirm=lambda: ctx.monitor("m_wrapsel", "search", 80, ctx.seed), shape=True)
     order = [l for _, l in sorted(seen)]
     ctx.item("C15/U2/main_with_args:emitter-order", order == ["wrap.c", "wrap.fortran", "wrap.python", "wrap.lua"],
-             "emitters run in the order %r" % order)
+             "emitters run in the order %r" % order, confirm=lambda: ctx.monitor("m_wrapsel", "search", 80, ctx.seed), shape=True)
     for lst in ("cfiles", "ffiles"):
         ok = False
         for n in ast.walk(fn):
             if isinstance(n, ast.If) and ast.unparse(n.test) == "args.%s" % lst:
                 txt = ast.unparse(n)
                 ok = "' '.join(config.%s)" % lst in txt and "open(args.%s, 'w')" % lst in txt
-        ctx.item("C15/U1/main_with_args:--%s-content" % lst, ok, "--%s is not written as ' '.join(config.%s)" % (lst, lst))
+        ctx.item("C15/U1/main_with_args:--%s-content" % lst, ok, "--%s is not written as ' '.join(config.%s)" % (lst, lst),
+                 confirm=lambda: ctx.monitor("m_wrapsel", "search", 80, ctx.seed), shape=True)
 
 
 EMITTER_LANG = {"wrapc.py": "c", "wrapf.py": "fortran", "wrapp.py": "python", "wrapl.py": "lua"}
@@ -139,7 +142,7 @@ def declaration_gates(ctx):
                 ctx.item(ident, ok, "the loop over %s at %s:%d does not start with the element's own gate `%s` (first test: %r)"
                          % (ast.unparse(it), fn, loop.lineno, want, seen),
                          sample={"site": "%s:%d" % (fn, loop.lineno), "gate": want},
-                         confirm=lambda: ctx.monitor("m_wrapsel", "search", 80, ctx.seed))
+                         confirm=lambda: ctx.monitor("m_wrapsel", "search", 80, ctx.seed), shape=True)
 
 
 def noninterference(ctx):
@@ -195,7 +198,7 @@ def noninterference(ctx):
                      "%s:%d reads the %s wrap flag (%s) outside the Python/Lua emitters: the switch can change what the "
                      "C and Fortran wrappers see" % (fn, n.lineno, flag, ast.unparse(stmt)[:80].split("\n")[0]),
                      sample={"site": "%s:%d" % (fn, n.lineno), "kind": why},
-                     confirm=lambda: ctx.monitor("m_wrapsel", "search", 80, ctx.seed))
+                     confirm=lambda: ctx.monitor("m_wrapsel", "search", 80, ctx.seed), shape=True)
 
 
 def run(ctx):
